@@ -186,15 +186,15 @@ def illFrom (env : Env) : Nat → Json → Str → Json → Json → Nat → St 
       illState env fuel states name state data ctx retries st
 termination_by structural fuel => fuel
 
-def illLeave (env : Env) : Nat → Json → Str → Json → Json → Json → Nat → St → Bool
-  | 0, _, _, _, _, _, _, _ => false
-  | fuel + 1, states, name, state, data, ctx, retries, st =>
+def illLeave (env : Env) : Nat → Json → Str → Json → Json → Json → Json → Nat → St → Bool
+  | 0, _, _, _, _, _, _, _, _ => false
+  | fuel + 1, states, name, state, raw, data, ctx, retries, st =>
     if isTrue (fld state "End") then false
     else match fldStr state "Next" with
       | none => true                                                                 -- site (b)
       | some next =>
         if (render data).length > env.maxData then
-          illErr env fuel states name state data ctx retries (S "States.DataLimitExceeded") (S "m") st
+          illErr env fuel states name state raw ctx retries (S "States.DataLimitExceeded") (S "m") st
         else illFrom env fuel states next data ctx 0 st
 termination_by structural fuel => fuel
 
@@ -237,7 +237,7 @@ def illState (env : Env) : Nat → Json → Str → Json → Json → Json → N
           let result := (fld state "Result").getD params
           match mergeResult data ctx result state with
           | .error pe => fail pe st
-          | .ok out => illLeave env fuel states name state out ctx retries st
+          | .ok out => illLeave env fuel states name state data out ctx retries st
     else if ty = S "Succeed" then
       match applyPath data ctx (pathArg state "InputPath") with
       | .error pe => fail pe st
@@ -265,7 +265,7 @@ def illState (env : Env) : Nat → Json → Str → Json → Json → Json → N
         | .ok () =>
           match applyPath input ctx (pathArg state "OutputPath") with
           | .error pe => fail pe st
-          | .ok out => illLeave env fuel states name state out ctx retries st
+          | .ok out => illLeave env fuel states name state data out ctx retries st
     else if ty = S "Choice" then
       match applyPath data ctx (pathArg state "InputPath") with
       | .error pe => fail pe st
@@ -302,7 +302,7 @@ def illState (env : Env) : Nat → Json → Str → Json → Json → Json → N
               | .ok result =>
                 match mergeResult data ctx result state with
                 | .error pe => fail pe st
-                | .ok out => illLeave env fuel states name state out ctx retries st
+                | .ok out => illLeave env fuel states name state data out ctx retries st
     else if ty = S "Parallel" then
       match applyPath data ctx (pathArg state "InputPath") with
       | .error pe => fail pe st
@@ -350,7 +350,7 @@ def illJoin (env : Env) : Nat → Json → Str → Json → Json → Json → Na
       | .ok result =>
         match mergeResult data ctx result state with
         | .error pe => illErr env fuel states name state data ctx retries (errName pe) (S "m") st
-        | .ok out => illLeave env fuel states name state out ctx retries st
+        | .ok out => illLeave env fuel states name state data out ctx retries st
 termination_by structural fuel => fuel
 
 def illBranches (env : Env) : Nat → List Json → Json → Json → St → Bool
